@@ -149,7 +149,7 @@ Theorem swapfee_moves_exactly_the_kernel_amounts :
     IdInv s -> exec s (SwapFee sender receiver denom amt) = ROk s' ->
     exists tb target ratio tm b m,
       let recipient := if receiver =? -2 then sender else receiver in
-      token_by_minunit s denom = Some tb /\ get denom (registry s) = Some (target, ratio) /\ get_token s target = Some tm
+      token_by_minunit s denom = Some tb /\ get denom (registry s) = Some (target, ratio) /\ token_by_minunit s target = Some tm
       /\ lossless_swap amt ratio (t_scale tb) (t_scale tm) = (b, m) /\ 0 <= b /\ 0 <= m /\ 0 < amt
       /\ (forall d, supply_of s' d = supply_of s d - ind (eqb d denom) b + ind (eqb d target) m)
       /\ (forall a d, balance s' a d = balance s a d - ind (eqb (a, d) (sender, denom)) b + ind (eqb (a, d) (recipient, target)) m).
@@ -158,20 +158,38 @@ Print Assumptions swapfee_moves_exactly_the_kernel_amounts.
 
 (** Hence, for a registry with positive ratios and tokens with scales 0..18: a swap never burns
     more than offered, never mints more than the burned amount is worth, and at ratio 1 is exact
-    with the dust left to the sender. *)
+    with the dust left to the sender — worth being measured with the scales of the tokens whose MIN
+    UNITS are the burned and the minted denom (a token that merely carries the minted denom as its
+    SYMBOL plays no part: [fix: token fee-token swap resolves its target as a min unit]). *)
 Theorem swapfee_never_creates_value :
   forall s sender receiver denom amt s',
     IdInv s -> exec s (SwapFee sender receiver denom amt) = ROk s' ->
     (forall sym t, get sym (tokens s) = Some t -> 0 <= t_scale t <= 18) ->
     (forall d tr, get d (registry s) = Some tr -> 0 < snd tr) ->
-    exists target ratio si so b m,
+    exists target ratio tb tm b m,
+      let si := t_scale tb in let so := t_scale tm in
       get denom (registry s) = Some (target, ratio)
+      /\ token_by_minunit s denom = Some tb /\ token_by_minunit s target = Some tm
+      /\ t_minunit tb = denom /\ t_minunit tm = target
       /\ supply_of s' denom = supply_of s denom - b + ind (eqb denom target) m
       /\ supply_of s' target = supply_of s target - ind (eqb target denom) b + m
       /\ 0 <= b <= amt /\ 0 <= m /\ mint_le_worth b m ratio si so
       /\ (ratio = P18 -> b * pow10 so = m * pow10 si /\ amt - b < pow10 (Z.max 0 (si - so))).
 Proof. exact swapfee_value. Qed.
 Print Assumptions swapfee_never_creates_value.
+
+(** Symbols and min units are separate name spaces in the code: a reachable state in which the
+    symbol-first lookup (keeper GetToken) of a coin denom answers another token — other scale, other
+    ERC20 contract — than the min-unit lookup.  Every conversion above resolves its coin denom by MIN
+    UNIT ([token_by_minunit]); the fee-token swap resolved its target symbol-first before its [fix:]
+    and minted with the wrong token's scale. *)
+Theorem symbol_first_lookup_picks_another_token :
+  exists p ms d ta tb,
+    let s := run (genesis p [((0, STAKE), 1000000); ((1, STAKE), 1000000)] 2000000 []) ms in
+    RegInv s /\ get_token s d = Some ta /\ token_by_minunit s d = Some tb
+    /\ t_scale ta <> t_scale tb /\ t_contract ta <> 0 /\ t_contract tb <> 0 /\ t_contract ta <> t_contract tb.
+Proof. exact symbol_first_lookup_differs. Qed.
+Print Assumptions symbol_first_lookup_picks_another_token.
 
 (** ** the hypotheses are satisfiable by non-trivial inputs and histories *)
 Example c10_kernel_nonvacuous :
